@@ -1324,10 +1324,8 @@ def compile_match_expression(compiler, expr, root, subject, clauses):
             )
         )
 
-    returnable = Result(
-        expr=asty.Name(expr, id=return_var.id, ctx=ast.Load()),
-        temp_variables=[return_var],
-    )
+    expr_name = asty.Name(expr, id=return_var.id, ctx=ast.Load())
+    returnable = Result(expr=expr_name, temp_variables=[return_var, expr_name])
     ret = Result() + subject
     ret += asty.Assign(
         expr, targets=[return_var], value=asty.Constant(expr, value=None)
@@ -1554,10 +1552,8 @@ def compile_try_expression(compiler, expr, root, body, catchers, orelse, finalbo
         finalbody += finalbody.expr_as_stmt()
         finalbody = finalbody.stmts
 
-    returnable = Result(
-        expr=asty.Name(expr, id=return_var.id, ctx=ast.Load()),
-        temp_variables=[return_var],
-    )
+    expr_name = asty.Name(expr, id=return_var.id, ctx=ast.Load())
+    returnable = Result(expr=expr_name, temp_variables=[return_var, expr_name])
     body += (
         body.expr_as_stmt()
         if orelse
